@@ -77,6 +77,24 @@ def scenarios(rep, tier, seed):
         if not K.materialise(scn):
             continue
         scns.append(scn)
+    # two-scale data (a tight group next to a far one): some candidate k then has a tiny but non-zero normalised cut and a later one
+    # an exact zero - "lowest" and "exactly 0" are meant literally
+    import numpy as np
+    rng3 = random.Random(seed * 1000003 + 1601)
+    for i in range(120 if thorough else 30):
+        n1, n2 = rng3.randrange(4, 7), rng3.randrange(3, 7)
+        n = n1 + n2
+        scn = K.random_scenario(rng3, "unsup", metric=["log_squared_euclidean", "squared_euclidean", "euclidean", "manhattan"][i % 4], n=n, nq=0, max_k=n - 1, min_k=1, mode="metric")
+        r = np.random.default_rng(rng3.randrange(2**31))
+        dim = len(scn["Z"][0])
+        Z = np.array(scn["Z"])
+        spread, off = (1e-3, 1e-2, 1e-4)[i % 3], (1e3, 1e2, 1e4)[(i // 3) % 3]
+        Z[:n1] = r.normal(size=(n1, dim)) * spread
+        Z[n1:n] = r.normal(size=(n2, dim)) * spread * (1 if i % 2 else 50) + off
+        scn["Z"] = Z.tolist()
+        scn["prefit"] = None
+        scn["present"] = "f64"
+        scns.append(scn)
     # KNN-supervised on a pre-computed matrix: training, validation (and each candidate's scoring) address rows through index arrays
     rng2 = random.Random(seed * 1000003 + 1600)
     for i in range(500 if thorough else 80):
